@@ -101,22 +101,22 @@ type Engine struct {
 }
 
 type Job struct {
-	Mode     string   `json:"mode"` // range | replay | shrink | determinism
-	Property string   `json:"property"`
-	Tier     string   `json:"tier"`
-	Seed     uint64   `json:"seed"`
-	Worker   int      `json:"worker"`
-	Workers  int      `json:"workers"`
-	Out      string   `json:"out"`
-	Crumb    string   `json:"crumb"`
-	Deadline int64    `json:"deadline_unix_ms"` // soft: stop starting new sampled cases
-	Tape     []uint64 `json:"tape"`
-	Key      string   `json:"key"`
-	MaxCases int      `json:"max_cases"` // 0: engine default
-	ShrinkN  int      `json:"shrink_budget"`
-	StartCase int     `json:"start_case"` // range mode: skip case numbers below this (restart after a lost case)
-	From     int      `json:"from"` // determinism mode: cases [from,to)
-	To       int      `json:"to"`
+	Mode      string   `json:"mode"` // range | replay | shrink | determinism
+	Property  string   `json:"property"`
+	Tier      string   `json:"tier"`
+	Seed      uint64   `json:"seed"`
+	Worker    int      `json:"worker"`
+	Workers   int      `json:"workers"`
+	Out       string   `json:"out"`
+	Crumb     string   `json:"crumb"`
+	Deadline  int64    `json:"deadline_unix_ms"` // soft: stop starting new sampled cases
+	Tape      []uint64 `json:"tape"`
+	Key       string   `json:"key"`
+	MaxCases  int      `json:"max_cases"` // 0: engine default
+	ShrinkN   int      `json:"shrink_budget"`
+	StartCase int      `json:"start_case"` // range mode: skip case numbers below this (restart after a lost case)
+	From      int      `json:"from"`       // determinism mode: cases [from,to)
+	To        int      `json:"to"`
 }
 
 type Found struct {
